@@ -936,6 +936,100 @@ class Schedules(Stage):
         }
 
 
+IMPORT_TEMPLATES = {
+    # (template, expected text) for a package P with modules sub, other and
+    # a deeper package deep.leaf that nothing imports by itself
+    "pkg": ('<p tal:define="m import: %(P)s">${m.__name__}</p>',
+            "<p>%(P)s</p>"),
+    "sub": ('<p tal:define="m import: %(P)s.sub">${m.__name__}</p>',
+            "<p>%(P)s.sub</p>"),
+    "value": ("<p>${import: %(P)s.sub.VALUE}</p>", "<p>S</p>"),
+    "other": ('<p tal:content="import: %(P)s.other.VALUE"/>', "<p>O</p>"),
+    "deep": ("<p>${import: %(P)s.deep}</p>", None),
+    "leaf": ("<p>${import: %(P)s.deep.leaf.VALUE}</p>", "<p>L</p>"),
+}
+
+
+class ImportOrder(Part):
+    """import: expressions give the same value whatever other import:
+    expressions (of a parent package, a sibling, a deeper module) were
+    evaluated before in the process - the process-wide module cache is
+    transparent.  Every case gets a package of its own that nothing has
+    imported yet."""
+    name = "importorder"
+    examples = {"quick": 200, "thorough": 5000}
+
+    def strategy(self, tier):
+        return st.lists(st.sampled_from(sorted(IMPORT_TEMPLATES)),
+                        min_size=2, max_size=6).map(
+                            lambda seq: {"sequence": seq})
+
+    def nontrivial(self, case):
+        return len(set(case["sequence"])) >= 2
+
+    def labels(self, case):
+        seq = case["sequence"]
+        if "pkg" in seq and any(k in seq[seq.index("pkg"):]
+                                for k in ("sub", "value", "other")):
+            yield "parent_before_child"
+        if "deep" in seq and "leaf" in seq[seq.index("deep"):]:
+            yield "deep_parent_before_leaf"
+
+    def setup_shard(self, tier, shard):
+        self.tmp = tempfile.mkdtemp(prefix="c14-imp-")
+        sys.path.insert(0, self.tmp)
+        self.n = 0
+
+    def teardown_shard(self):
+        tmp = getattr(self, "tmp", None)
+        if tmp:
+            if tmp in sys.path:
+                sys.path.remove(tmp)
+            shutil.rmtree(tmp, ignore_errors=True)
+
+    def oracle(self, case):
+        import importlib
+        from chameleon import PageTemplate
+        if not getattr(self, "tmp", None):
+            self.setup_shard(None, 0)
+        self.n += 1
+        pkg = "c14pkg_%d_%d" % (os.getpid(), self.n)
+        root = os.path.join(self.tmp, pkg)
+        os.makedirs(os.path.join(root, "deep"))
+        for rel, text in (("__init__.py", ""), ("sub.py", "VALUE = 'S'\n"),
+                          ("other.py", "VALUE = 'O'\n"),
+                          ("deep/__init__.py", ""),
+                          ("deep/leaf.py", "VALUE = 'L'\n")):
+            with open(os.path.join(root, rel), "w") as f:
+                f.write(text)
+        importlib.invalidate_caches()
+        try:
+            for i, kind in enumerate(case["sequence"]):
+                tpl, exp = IMPORT_TEMPLATES[kind]
+                src = tpl % {"P": pkg}
+                o = run(PageTemplate, src)
+                if o.ok:
+                    o = run(o.value.render)
+                got = o.value if o.ok else "exc " + o.exc_name
+                if exp is None:
+                    ok = o.ok and ("module '%s.deep'" % pkg) in got
+                else:
+                    ok = got == exp % {"P": pkg}
+                if not ok:
+                    return Mismatch(
+                        "importorder:%s %s" % (kind, "after other imports"
+                                                if i else "first"),
+                        {"sequence": case["sequence"], "step": i,
+                         "source": src.replace(pkg, "P"),
+                         "got": got.replace(pkg, "P"),
+                         "outcome": None if o.ok else o.brief()})
+        finally:
+            for name in [m for m in sys.modules if m.split(".")[0] == pkg]:
+                del sys.modules[name]
+            shutil.rmtree(root, ignore_errors=True)
+        return None
+
+
 CHECK = Check(
     "C14", "exploration",
     rule=("determinism: generated templates x sequences of 3..5 render calls "
@@ -949,7 +1043,8 @@ CHECK = Check(
           "inside cook / cook_check / read / load / macros / include, sampled "
           "(quick) or all (thorough) double-preemption schedules and drawn "
           "3-thread schedules; every schedule is a distinct non-trivial case"),
-    parts=[Determinism(), EngineObjects(), Isolation(), RenderArgs()],
+    parts=[Determinism(), EngineObjects(), Isolation(), RenderArgs(),
+           ImportOrder()],
     stages=[HashSeed(), FreeThreads(), Schedules()],
     assumptions=[
         "preemption inside C-level calls or between the bytecodes of one "
